@@ -1,4 +1,6 @@
 import Vflow.Model.Reader
+import Vflow.Gen.Sites
+import Vflow.Spec.Sites
 /-!
 # C19 — the byte reader never reads outside its buffer and accounts exactly
 
@@ -126,5 +128,10 @@ theorem readN_eq_read (r : Rd) (n : Nat) :
 /-- non-vacuity: a concrete run exercising a failed read, a negative read, a peek and integer reads -/
 example : Rd.outs ⟨[1,2,3,4,5], 0⟩ [.u16, .read (-1), .peek 2, .read 9, .u8, .len, .readCount, .read 2, .u8] =
     [.num 258, .fail, .bytes [3,4], .fail, .num 3, .num 2, .num 3, .bytes [4,5], .fail] := by decide
+
+/-- **Tie (control-flow skeleton)**: every branch / loop condition, switch case and `break` / `continue` of the
+sources this model mirrors, re-extracted on every run, is exactly the reviewed inventory in `Spec/Sites.lean`
+(which names the model clause of each).  A changed bound, a new or dropped branch breaks this obligation. -/
+theorem guards_reviewed : Gen.Sites.guardsReader = Spec.Sites.guardsReader := by decide +kernel
 
 end Vflow.C19
